@@ -9,6 +9,12 @@ func runConstructorTable(c *Ctx) { runConstructorTableImpl(c) }
 func runStoreClearTwin(c *Ctx) {
 	type pair struct{ a, b ModelKind }
 	pairs := []pair{{ModelKind{"exact", 0}, ModelKind{"exact", 0}}, {ModelKind{"low", 2}, ModelKind{"low", 4}}, {ModelKind{"high", 3}, ModelKind{"exact", 0}}}
+	// directed scenario: a collapsing store collapses (two far-apart adds), is cleared, is then populated by a same-kind
+	// merge (which does not go through the add path) and finally receives an add beyond its range: 6 events
+	for _, k := range []string{"low", "high"} {
+		c.runStoreGen(&StoreGen{Kinds: []ModelKind{{k, 2}, {k, 4}}, Keys: []int{0, 2, 4}, SlotKeys: [][]int{{0, 4}, {2}}, Pairs: [][2]int{{2, 1}}, Q: 4, Weights: []int{6},
+			Ops: []string{"Add", "Merge", "Clear"}, Depth: 6, Twin: "clear"}, c.pick(3, 6), fmt.Sprintf("store-level directed tree collapse/clear/merge/add %s2 x %s4", k, k))
+	}
 	for _, p := range pairs {
 		// deep narrow tree: add / merge / clear sequences (memory reuse after Clear)
 		c.runStoreGen(&StoreGen{Kinds: []ModelKind{p.a, p.b}, Keys: []int{0, 2, 4}, Q: 4, Weights: []int{6}, Ops: []string{"Add", "Merge", "Clear"},
